@@ -3,7 +3,7 @@ import RxProofs.Lemmas.SubjReplayInv
 # ReplaySubject: what a subscriber's ScheduledObserver is fed, and what reaches the user
 -/
 
-namespace Replay
+namespace SubjReplay
 open Subj (Action Call upd disposedExn upd_apply)
 variable {α : Type}
 
@@ -163,9 +163,9 @@ theorem doSub_enq (cfg : Cfg) {st : St α} (h : RInv cfg st) (who : Option Id) (
   rw [if_neg (by simp [hd])]
   exact ⟨this.1, this.2, rfl⟩
 
-end Replay
+end SubjReplay
 
-namespace Replay
+namespace SubjReplay
 open Subj (Action Call upd disposedExn upd_apply)
 variable {α : Type}
 
@@ -557,9 +557,9 @@ theorem reach_silent {cfg : Cfg} {calls : List (Nat × Call α)} {st : St α} (h
       have := ih h.step s1.2
       exact ⟨this.1.trans s1.1, this.2⟩
 
-end Replay
+end SubjReplay
 
-namespace Replay
+namespace SubjReplay
 open Subj (Action Call upd disposedExn upd_apply)
 variable {α : Type}
 
@@ -628,4 +628,4 @@ theorem doSub_enq_other (cfg : Cfg) (st : St α) (who : Option Id) (j k : Id) (h
         · rw [p, pl]
         · rw [pl]
 
-end Replay
+end SubjReplay
